@@ -62,7 +62,7 @@ def opaque_msg(ex, st, tag):
        r'^String::from_utf8_lossy$', r'^<Cow<.*> as ToString>::to_string$', r'^<Vec<.*> as AsRef<.*>>::as_ref$',
        r'^PathBuf::as_path$', r'^<PathBuf as Deref>::deref$', r'^<str as AsRef<.*>>::as_ref$', r'^<String as AsRef<.*>>::as_ref$',
        r'^Path::new$', r'^PathBuf::from$', r'^<PathBuf as From<.*>>::from$', r'^<&T as .*Clone>::clone$',
-       r'^<.* as Into<.*>>::into$', r'^core::str::<impl str>::to_owned$', r'^std::string::String::from$',
+       r'^<.* as Into<.*>>::into$', r'^<.* as Clone>::clone$', r'^core::str::<impl str>::to_owned$', r'^std::string::String::from$',
        r'^<.* as IntoIterator>::into_iter$' + '(?#iter)')
 def m_identity(ex, st, c):
     v = D(ex, st, c.args[0])
@@ -909,10 +909,21 @@ def m_opt_eq(ex, st, c): return values_eq(ex, st, c.args[0], c.args[1])
 
 
 # ------------------------------------------------------------------ parsing numbers
-def parse_int(s, ty):
+def parse_int(s, ty, radix=10):
     """exact model of <intN as FromStr>::from_str on an ASCII string: returns (ok_cond, value Int).  Err otherwise."""
     w = WIDTH[ty]; sg = ty in SIGNED
     cc = s.concrete()
+    if cc is not None and radix != 10:
+        try:
+            t = cc.decode('ascii')
+            if not re.match(r'^[+-]?[0-9a-fA-F]+$' if radix == 16 else r'^[+-]?[0-7]+$', t): return False, None
+            if t[0] == '-' and not sg: return False, None
+            v = int(t, radix)
+            lo, hi = (-(1 << (w - 1)), (1 << (w - 1)) - 1) if sg else (0, (1 << w) - 1)
+            if not (lo <= v <= hi): return False, None
+            return True, Int(ty, v)
+        except UnicodeDecodeError:
+            return False, None
     if cc is not None:
         try:
             t = cc.decode('ascii')
@@ -940,17 +951,21 @@ def parse_int(s, ty):
     for i in range(n):
         b = f.bs[i]
         inr = bv_ult(i, f.ln, LW)
-        isd = byte_in_range(b, 48, 57)
+        isd = byte_in_range(b, 48, 57) if radix == 10 else b_or(byte_in_range(b, 48, 57), byte_in_range(b, 65, 70), byte_in_range(b, 97, 102))
         is_sign_pos = b_and(sign, i == 0)
         digit_here = b_and(inr, b_not(is_sign_pos))
         ok = b_and(ok, b_or(b_not(digit_here), isd))
-        d = (b - 48) if isinstance(b, int) else z3.ZeroExt(W - 8, b - 48)
+        if radix == 10:
+            d = (b - 48) if isinstance(b, int) else z3.ZeroExt(W - 8, b - 48)
+        else:
+            if isinstance(b, int): d = (b - 48) if b <= 57 else ((b | 32) - 87)
+            else: d = z3.ZeroExt(W - 8, z3.If(z3.ULE(b, 57), b - 48, (b | 32) - 87))
         if isinstance(acc, int) and isinstance(d, int) and isinstance(digit_here, bool):
-            if digit_here: acc = acc * 10 + d
+            if digit_here: acc = acc * radix + d
         else:
             accz = bvval(acc, W) if isinstance(acc, int) else acc
             dz = bvval(d, W) if isinstance(d, int) else d
-            nxt = (accz << 3) + (accz << 1) + dz     # acc*10 + d without a multiplier
+            nxt = ((accz << 3) + (accz << 1) + dz) if radix == 10 else ((accz << 4) + dz)     # acc*radix + d without a multiplier
             acc = z3.If(zb(digit_here), nxt, accz)
             limit = bvval((1 << (w - 1)) if sg else (1 << w) - 1, W)
             # magnitude limit: unsigned max, or 2^(w-1) (negatives reach it, positives 2^(w-1)-1)
@@ -989,6 +1004,56 @@ def m_parse(ex, st, c):
     fn = ex.resolve('<%s as FromStr>::from_str' % ty) or ex.resolve('<%s as FromStr>::from_str' % ty.split('::')[-1])
     if fn is not None: return CallFn(fn, [s], lambda ex_, st_, r: r)
     raise Unsupported('parse::<%s>' % ty)
+
+
+@model(r'^core::num::<impl (u8|u16|u32|u64|usize|i8|i16|i32|i64)>::from_str_radix$')
+def m_from_str_radix(ex, st, c):
+    ty = re.search(r'<impl (\w+)>', c.callee).group(1)
+    s = D(ex, st, c.args[0]); radix = D(ex, st, c.args[1])
+    if not radix.conc or radix.v not in (10, 16): raise Unsupported('from_str_radix radix %r' % (radix,))
+    ok, v = parse_int(s, ty, radix.v)
+    if ok is False: return Err(Opaque('ParseIntError'))
+    return Fork([(ok, Ok(v)), (b_not(ok), Err(Opaque('ParseIntError')))])
+
+
+@model(r'^core::num::<impl (u8|u16|u32|u64|usize|u128)>::(saturating_sub|saturating_add|wrapping_sub|wrapping_add|checked_sub|checked_add|checked_mul|min|max|abs_diff)$',
+       r'^std::cmp::(min|max)$', r'^<(u8|u16|u32|u64|usize) as Ord>::(min|max)$')
+def m_int_methods(ex, st, c):
+    op = strip_generics(c.callee).rsplit('::', 1)[1]
+    a = D(ex, st, c.args[0]); b = D(ex, st, c.args[1])
+    if a.ty in SIGNED: raise Unsupported('signed ' + op)
+    lt = int_binop('Lt', a, b)
+    if op == 'saturating_sub': return ite(lt, Int(a.ty, 0), int_binop('Sub', a, b))
+    if op == 'wrapping_sub': return int_binop('Sub', a, b)
+    if op == 'wrapping_add': return int_binop('Add', a, b)
+    if op == 'min': return ite(lt, a, b)
+    if op == 'max': return ite(lt, b, a)
+    if op == 'abs_diff': return ite(lt, int_binop('Sub', b, a), int_binop('Sub', a, b))
+    if op == 'checked_sub': return Fork([(lt, NONE), (b_not(lt), Some(int_binop('Sub', a, b)))])
+    if op in ('saturating_add', 'checked_add'):
+        r, ov = int_binop('AddWithOverflow', a, b)
+        if op == 'saturating_add': return ite(ov, Int(a.ty, (1 << WIDTH[a.ty]) - 1), r)
+        return Fork([(ov, NONE), (b_not(ov), Some(r))])
+    if op == 'checked_mul':
+        r, ov = int_binop('MulWithOverflow', a, b)
+        return Fork([(ov, NONE), (b_not(ov), Some(r))])
+    raise Unsupported(op)
+
+
+@model(r'^core::str::<impl str>::get$', r'^core::str::<impl str>::get_mut$')
+def m_str_get(ex, st, c):
+    s = D(ex, st, c.args[0]); r = D(ex, st, c.args[1])
+    fs = r.fields if isinstance(r, Struct) else r.data
+    ty = c.callee
+    n = usize(s.length())
+    if 'RangeFrom' in ty: a, b = fs[0], n
+    elif 'RangeTo' in ty: a, b = usize(0), fs[0]
+    elif 'Range<' in ty: a, b = fs[0], fs[1]
+    else: raise Unsupported('str::get with ' + ty)
+    bad = b_or(int_binop('Gt', a, b), int_binop('Gt', b, n))
+    if bad is True: return NONE
+    # (char boundaries: strings are ASCII in this domain)
+    return Fork([(bad, NONE), (b_not(bad), LazyR(lambda: Some(s.substr(a.v, bv_sub(b.v, a.v, LW)))))])
 
 
 def int_to_dec(ex, st, v):
@@ -1679,9 +1744,10 @@ def install_apply_hooks():
             if res.sr is not None:
                 srs = res.sr if (res.sr and isinstance(res.sr[0], tuple)) else (res.sr,)
                 for ref, val in srs: s.store(st, ref, val)
-            return apply_result(s, st, fr, dest, ret_bb, res.v)
+            return s.apply_result(st, fr, dest, ret_bb, res.v)
         if isinstance(res, LazyR):
-            return apply_result(s, st, fr, dest, ret_bb, res.thunk())
+            th = res.thunk
+            return s.apply_result(st, fr, dest, ret_bb, th(st) if th.__code__.co_argcount == 1 else th())
         return orig(s, st, fr, dest, ret_bb, res)
     Executor.apply_result = apply_result
 
